@@ -130,7 +130,9 @@ class ProtoclusterOrder(StageOrder):
     outside = "G > 2; candidate formation (set displays cannot be intercepted without rewriting the source; see C05's renamed products)"
 
     def variants(self, tier):
-        return [{"same_place": False}, {"same_place": True}]
+        # twins: one rule, two separate chains whose neighbourhoods are both clipped to the whole (linear) record: two protoclusters
+        # of one product with identical extents and different cores
+        return [{"same_place": False}, {"same_place": True}, {"same_place": False, "twins": True}]
 
     def vars(self, var):
         d = order_vars()
@@ -148,6 +150,8 @@ class ProtoclusterOrder(StageOrder):
             c += [v["g0s0"] == v["g1s0"], v["g0e0"] == v["g1e0"]]
         else:
             c += [L.Or(v["g0s0"] != v["g1s0"], v["g0e0"] != v["g1e0"])]
+        if var.get("twins"):
+            c.append(v["g1s0"] - v["g0e0"] >= v["cutoff"])        # not chained
         return L.And(c)
 
     def run(self, var, v):
@@ -161,13 +165,16 @@ class ProtoclusterOrder(StageOrder):
             rules = {"r1": mkrule("r1", v["cutoff"], 0), "r2": mkrule("r2", v["cutoff"], 0)}
             doms = defaultdict(lambda: defaultdict(set))
             by_type = {"r1": ASet(["g0", "g1"]), "r2": ASet(["g1", "g0"])}
+            if var.get("twins"):
+                rules = {"r1": mkrule("r1", v["cutoff"], v["n"])}
+                by_type = {"r1": ASet(["g1", "g0"])}
             protos = cp.find_protoclusters(rec, by_type, rules, {}, doms)
             for p in protos:
                 rec.add_protocluster(p)
             found = [(p.product, canon_loc(p.core_location)) for p in rec.get_protoclusters()]
             rec.create_candidate_clusters()
             rec.create_regions()
-            unique = [[p.product for p in region.get_unique_protoclusters()] for region in rec.get_regions()]
+            unique = [[(p.product, canon_loc(p.core_location)) for p in region.get_unique_protoclusters()] for region in rec.get_regions()]
             cds_res = cp.CDSResults(rec.get_cds_by_name("g0"), [SecMetQualifier.Domain("a", 1e-5, 50., 1, "tool")],
                                     {"r1": ASet(["x", "y", "z"]), "r2": ASet(["z", "x"])})
             return {"protoclusters": found, "unique": unique, "json": cds_res.to_json()["definition_domains"]}
@@ -182,7 +189,10 @@ class ProtoclusterOrder(StageOrder):
                             [L.And(x[0] == y[0], len(x[1]) == len(y[1]), [L.And(p[0] == q[0], p[1] == q[1]) for p, q in zip(x[1], y[1])])
                              for x, y in zip(a["protoclusters"], b["protoclusters"])])
         return [("same_protoclusters_in_the_same_order", same_protos),
-                ("same_protocluster_order_within_regions", a["unique"] == b["unique"]),
+                ("same_protocluster_order_within_regions",
+                 L.And(len(a["unique"]) == len(b["unique"]),
+                       [L.And(len(r) == len(q), [L.And(x[0] == y[0], len(x[1]) == len(y[1]), [L.And(m[0] == k[0], m[1] == k[1]) for m, k in zip(x[1], y[1])])
+                                                 for x, y in zip(r, q)]) for r, q in zip(a["unique"], b["unique"])])),
                 ("same_json_for_every_set_order", a["json"] == b["json"])]
 
 
